@@ -388,6 +388,8 @@ class Ev:
         if "cidx" in e:
             if t[0] == "bytes" and not e.get("end") and e["cidx"] < len(t[1]):
                 return ("int", t[1][e["cidx"]])
+            if t[0] == "agg" and t[1] == "array" and not e.get("end") and e["cidx"] < len(t[2]):
+                return t[2][e["cidx"]]
             return ("idx", t, ("int", -e["cidx"] if e.get("end") else e["cidx"]))
         if "sub" in e:
             return ("subslice", t, e["sub"][0], e["sub"][1], bool(e.get("end")))
